@@ -11,8 +11,9 @@ class InfoFiles:
         self.fs = fs
 
     def all_info_files(self, path):
-        norm_path = os.path.normpath(path)
-        info_dir = os.path.join(norm_path, 'info')
+        # the path as given: 'link/..' is resolved by the kernel, as for
+        # trash-list and trash-empty (normpath would drop 'link' first)
+        info_dir = os.path.join(path, 'info')
         try:
             for info_file in self.fs.list_files_in_dir(info_dir):
                 if not is_trashinfo_name(os.path.basename(info_file)):
